@@ -6,7 +6,9 @@ from . import core, rel
 
 
 def c01(tier, seed):
-    return rel.check_rel("C01", tier, seed, 100, 2000)
+    from . import corpus
+    gs = corpus.all_grammars() + rel.random_cfg_grammars(seed, 40 if tier == "quick" else 800)
+    return rel.check_rel("C01", tier, seed, 120, 2500, grammars=gs)
 
 
 def c10(tier, seed):
@@ -190,14 +192,52 @@ def c18(tier, seed):
 
 
 def c02(tier, seed):
-    return rel.check_split("C02", tier, seed, 90, 3000)
+    return rel.check_split("C02", tier, seed, 110, 3000)
 
 
 def c13(tier, seed):
     return rel.check_split("C13", tier, seed, 90, 3000)
 
 
-CHECKS = {"C13": c13, "C02": c02, "C18": c18, "C16": c16, "C06": c06, "C07": c07, "C09": c09, "C08": c08, "C04": c04, "C05": c05, "C01": c01, "C10": c10, "C11": c11, "C12": c12}
+def c03(tier, seed):
+    """no dead ends: (a) exact mode on byte-complete vocabularies: an allowed token always leaves a state from which
+    a match is reachable (mask = live set) and an empty mask / NoExtensionBias has no action; (b) protocol on JSON
+    schemas with numeric ranges, multipleOf, lengths, formats, intersections (learned oracle, byte-complete
+    vocabularies): never an empty mask, NoExtensionBias or a normal stop in a non-accepting state."""
+    import random
+    from . import exact, jsgen, corpus
+    res = core.Result("C03", tier, seed)
+    q = tier == "quick"
+    rng = random.Random(f"C03-{seed}")
+    gs = [g for g in corpus.all_grammars() if g[1]["kind"] == "json"]
+    for i in range(60 if q else 2500):
+        schema, _p, _k = jsgen.top_schema(rng, full=False, depth=rng.choice([1, 2, 2]))
+        gs.append((f"gen{i}", {"kind": "json", "schema": schema}))
+    parts = [
+        ("C03", "regex", exact.regex_job("C03", seed, 24 if q else 1200, byte_complete=True), "Trace_Regex", None),
+        ("C03b", "cfg", exact.cfg_job("C03", seed, 24 if q else 1200, byte_complete=True), "Trace_Cfg", None),
+        ("C03c", "json-protocol", rel.build_job("C03", tier, seed, len(gs), gs, steps=(15, 40), vocab_choices=("byte", "lang", "bpe")),
+         "Trace_EngineRel", "all"),
+    ]
+
+    def go(p):
+        tag, part, job, module, view = p
+        return part, rel.drive_and_validate(tag, tier, seed, job, res, nshards=5 if q else 16, module=module, cfg_view=view,
+                                            timeout=7200)
+
+    for part, rejects in core.parallel(go, parts, workers=3 if q else 1):
+        for rj in rejects:
+            res.violation(dict(rel.signature(rj), part=part), rj["replay"])
+    res.cov["rule"] = ("episodes = (a) random regexes / EBNF grammars with byte-complete vocabularies validated in exact mode "
+                       "(mask = set of tokens after which a match is still reachable; empty masks have no action); (b) JSON "
+                       "schemas (numeric ranges, multipleOf, lengths, formats, allOf) walked through the masks with "
+                       "byte-complete vocabularies under the protocol model: no empty mask / NoExtensionBias / normal stop "
+                       "in a non-accepting state")
+    res.assumptions += ["liveness beyond the walked histories for unbounded JSON strings is covered only by the exact-mode part"]
+    return res
+
+
+CHECKS = {"C03": c03, "C13": c13, "C02": c02, "C18": c18, "C16": c16, "C06": c06, "C07": c07, "C09": c09, "C08": c08, "C04": c04, "C05": c05, "C01": c01, "C10": c10, "C11": c11, "C12": c12}
 
 
 def setup():
@@ -208,7 +248,7 @@ def setup():
 SPEC_OF = {"C01": ("Trace_EngineRel", "Trace_EngineRel_all.cfg"), "C10": ("Trace_EngineRel", "Trace_EngineRel_func.cfg"),
            "C11": ("Trace_EngineRel", "Trace_EngineRel_func.cfg"), "C12": ("Trace_EngineRel", "Trace_EngineRel_func.cfg"),
            "C04": ("Trace_Regex", None), "C05": ("Trace_Cfg", None), "C08": ("Trace_Numeric", None),
-           "C09": ("Trace_Count", None), "C16": ("Trace_Naive", None), "C02": ("Trace_Split", None), "C13": ("Trace_Split", None), "C18": ("Trace_EngineRel", "Trace_EngineRel_all.cfg"), "C06": ("Trace_Json", None), "C07": ("Trace_Json", None)}
+           "C09": ("Trace_Count", None), "C16": ("Trace_Naive", None), "C02": ("Trace_Split", None), "C03": ("Trace_EngineRel", "Trace_EngineRel_all.cfg"), "C13": ("Trace_Split", None), "C18": ("Trace_EngineRel", "Trace_EngineRel_all.cfg"), "C06": ("Trace_Json", None), "C07": ("Trace_Json", None)}
 
 
 def replay(prop, path):
